@@ -373,6 +373,8 @@ def run_worlds(st):
             ("float@schema=exc", float, [-1, 0, 0.5, 5, 10, 11, "a"], _schema(exc_min=0, exc_max=10, examples=[1.5])),
             ("RecNode@schema=max_props", m.RecNode, [{}, {"value": 1}, {"value": 1, "children": []}, {"children": [{"value": 2, "children": []}]}], _schema(max_props=1)),
             ("Exc2@schema=min", m.Exc2, [0, 4.5, 5, 7.5, 10, 20], _schema(min=6, description="d")),
+            ("int@schema=no_examples", int, [0, 1, "a"], _schema(examples=(), min=0)),
+            ("int@schema=two_examples", int, [0, 1, "a"], _schema(examples=[1, 2], min=0)),
         ):
             check_versions(tp, data, "world:" + name, name, WORLD_SRC, "world:" + name, False, st, extra_kw={"schema": sch})
         # names rewritten by an aliaser (given at the call, then through the settings): every name-bearing keyword follows in every dialect
